@@ -343,8 +343,6 @@ def run(ck, F, tier):
         v = ev.apply(("closure", clo, {}), [("tuple", [var("k"), ("bool", True)])])
         v2 = ev.apply(("closure", clo, {}), [("tuple", [var("k"), ("bool", False)])])
         sel_ok = v == ("ctor", "Some", [var("k")]) and v2 == ("variant", "None")
-        pat = fors[0]["pat"]
-        order_ok = pat.get("k") == "ptuple" and [p.get("ident") for p in pat["ps"]] == ["j", "k"]
         return sel_ok, "kept positions: filter_map keeps index k exactly when pattern[k] is true (%s); outer enumerate numbers them j = 0,1,.." % sel_ok
     okp, whyp = kept_enum_ok(PU + "puncture")
     ck.inst("I2", "puncture:kept-enumeration", okp, F.body(PU + "puncture").span, whyp)
